@@ -38,12 +38,12 @@ ANCHORS = ['debian._deb822_repro.tokens:whitespace_split_tokenizer.<func>', 'deb
            'debian._deb822_repro.parsing:ValueReference.remove']
 MUST_REACH = ANCHORS
 FLOORS = {'quick': {'nontrivial': 2500, 'monitors': {'M.read': 5000, 'M.noop': 5000, 'M.edit': 4000, 'M.writeback': 4000, 'M.abort': 1200, 'K5': 4000},
-                    'counters': {'op:append': 1000, 'op:comment+append': 300, 'op:remove': 800, 'op:replace': 800, 'op:ref-set': 800, 'op:ref-remove': 800,
+                    'counters': {'op:append': 1000, 'op:comment+append': 300, 'op:remove': 800, 'op:replace': 800, 'op:ref-set': 800, 'op:ref-remove': 800, 'op:iter-remove': 120,
                                  'layout:first-line-blank': 200, 'layout:comment-inside': 800}},
           'thorough': {'nontrivial': 150000, 'monitors': {'M.read': 300000, 'M.noop': 300000, 'M.edit': 250000, 'M.writeback': 250000,
                                                           'M.abort': 80000, 'K5': 250000},
                        'counters': {'op:append': 60000, 'op:comment+append': 18000, 'op:remove': 50000, 'op:replace': 50000, 'op:ref-set': 50000,
-                                    'op:ref-remove': 50000, 'layout:first-line-blank': 12000, 'layout:comment-inside': 50000}}}
+                                    'op:ref-remove': 50000, 'op:iter-remove': 8000, 'layout:first-line-blank': 12000, 'layout:comment-inside': 50000}}}
 LEVEL_TEXT = ('Runtime monitoring: seeded list-field layouts and edit histories on the live list views; reads are compared with an '
               'independent split oracle, every step of an edit history with a Python-list model, the written-back document '
               'byte-for-byte outside the field and by fresh parse inside it.  Held-on-observed.')
@@ -136,9 +136,15 @@ def gen_ops(r, comma, nvals, uid):
             # a comment line (and/or a line break) followed by a value: the separator must go onto a continuation line
             ops.append(['comment+append', new, r.choice(['# added %d' % uid[0], 'plain text', '', None])])
             n += 1
-        elif k < .45 and n > 1:
+        elif k < .40 and n > 1:
             ops.append(['remove', r.randrange(n)])
             n -= 1
+        elif k < .45 and n > 2:
+            # streaming removal through value references, combined with a direct removal of a value that the
+            # running iteration has not reached yet
+            idxs = sorted(r.sample(range(n), r.randint(2, n - 1)))
+            ops.append(['iter-remove', idxs])
+            n -= len(idxs)
         elif k < .62 and n:
             ops.append(['replace', r.randrange(n), new])
         elif k < .8 and n:
@@ -348,6 +354,21 @@ def run_case(ctx, case):
                     v = model[k]
                     l.replace(v, op[2])
                     model[model.index(v)] = op[2]
+                elif kind == 'iter-remove':
+                    idxs = [i for i in op[1] if i < len(model)]
+                    if len(idxs) < 2 or len(idxs) >= len(model) or len(set(model)) != len(model):
+                        continue
+                    doomed = [model[i] for i in idxs]
+                    direct = doomed[-1]                 # removed directly while the iteration is still before it
+                    first = True
+                    for ref in l.iter_value_references():
+                        if first:
+                            first = False
+                            if ref.value != direct:
+                                l.remove(direct)
+                        if ref.value in doomed:
+                            ref.remove()
+                    model[:] = [v for v in model if v not in doomed]
                 elif kind == 'ref-set':
                     refs = list(l.iter_value_references())
                     k = op[1] % len(model)
